@@ -14,8 +14,28 @@ import (
 	"regexp"
 	"strings"
 	"sync"
+	"sync/atomic"
 	"time"
 )
+
+// coverQF: a cover (vacuity) query restricted to its quantifier-free
+// assertions. Quantified assertions only come from defining axioms of fresh
+// arrays/strings (trusted models) and from quantified contract clauses; model
+// finding under them is expensive, so covers are decided on the
+// quantifier-free part when the full query does not answer quickly. This can
+// miss a contradiction that needs a quantified assumption; it is recorded in
+// the evidence as solver "…(qf)".
+func coverQF(o *Obligation) *Obligation {
+	c := *o
+	c.Asserts = nil
+	for _, a := range o.Asserts {
+		if strings.Contains(a.S, "(forall ") || strings.Contains(a.S, "(exists ") {
+			continue
+		}
+		c.Asserts = append(c.Asserts, a)
+	}
+	return &c
+}
 
 const extraPreamble = `(declare-fun str_contains (Str Str) Bool)
 `
@@ -171,6 +191,68 @@ func (w *worker) query(txt string, hardTimeout time.Duration) (string, bool) {
 	}
 }
 
+// ---- feasibility checks during symbolic execution -------------------------------
+
+var feasPool = make(chan *worker, 16)
+var feasCount, feasPruned int64
+
+// feasible reports whether the path condition of s may be satisfiable
+// (quantified assertions are dropped, which only weakens the condition, so
+// "unsat" is a sound reason to prune; unknown/timeout/error count as
+// feasible).
+func (g *G) feasible(s *State) bool {
+	var w *worker
+	select {
+	case w = <-feasPool:
+	default:
+		var err error
+		w, err = startWorker(1000)
+		if err != nil {
+			return true
+		}
+	}
+	var body strings.Builder
+	for _, d := range s.Decls {
+		body.WriteString(d)
+		body.WriteString("\n")
+	}
+	for _, a := range s.Asserts {
+		if strings.Contains(a.S, "(forall ") || strings.Contains(a.S, "(exists ") {
+			continue
+		}
+		fmt.Fprintf(&body, "(assert %s)\n", a.S)
+	}
+	bs := body.String()
+	txt := smtPreamble + extraPreamble + g.strLitDecls(bs) + bs + "(check-sat)\n"
+	raw, ok := w.query(txt, 4*time.Second)
+	atomic.AddInt64(&feasCount, 1)
+	if !ok {
+		w.stop()
+		return true
+	}
+	select {
+	case feasPool <- w:
+	default:
+		w.stop()
+	}
+	if strings.TrimSpace(strings.SplitN(raw, "\n", 2)[0]) == "unsat" {
+		atomic.AddInt64(&feasPruned, 1)
+		return false
+	}
+	return true
+}
+
+func stopFeasPool() {
+	for {
+		select {
+		case w := <-feasPool:
+			w.stop()
+		default:
+			return
+		}
+	}
+}
+
 // solveAll discharges obligations in parallel.
 func (g *G) solveAll(obls []*Obligation, dir string, timeoutMs int, thorough bool) {
 	os.MkdirAll(dir, 0o755)
@@ -208,6 +290,39 @@ func (g *G) solveAll(obls []*Obligation, dir string, timeoutMs int, thorough boo
 					w, _ = startWorker(quick)
 				}
 				file := filepath.Join(dir, fmt.Sprintf("q%05d.smt2", j.i))
+				if w != nil && j.o.Cover {
+					// covers: quantifier-free part first (fast), full query only if that is unsat
+					raw, ok := w.query(g.queryText(coverQF(j.o), false), time.Duration(quick+3000)*time.Millisecond)
+					if !ok {
+						w.stop()
+						w = nil
+					} else if first := strings.TrimSpace(strings.SplitN(raw, "\n", 2)[0]); first == "unsat" {
+						j.o.Result, j.o.Solver, j.o.Raw = "unsat", "z3-new(qf)", raw
+						os.WriteFile(file, []byte(g.queryText(j.o, false)), 0o644)
+						continue
+					} else if first == "sat" && len(coverQF(j.o).Asserts) == len(j.o.Asserts) {
+						j.o.Result, j.o.Solver, j.o.Raw = "sat", "z3-new", raw
+						continue
+					} else if first == "sat" {
+						// full query with a short budget: only a definite unsat overrides
+						t0 := time.Now()
+						raw2, ok2 := w.query("(set-option :timeout 1000)\n"+g.queryText(j.o, false), 5*time.Second)
+						j.o.Secs = time.Since(t0).Seconds()
+						if !ok2 {
+							w.stop()
+							w = nil
+						}
+						if ok2 && strings.TrimSpace(strings.SplitN(raw2, "\n", 2)[0]) == "unsat" {
+							j.o.Result, j.o.Solver, j.o.Raw = "unsat", "z3-new", raw2
+							os.WriteFile(file, []byte(g.queryText(j.o, false)), 0o644)
+						} else if ok2 && strings.TrimSpace(strings.SplitN(raw2, "\n", 2)[0]) == "sat" {
+							j.o.Result, j.o.Solver = "sat", "z3-new"
+						} else {
+							j.o.Result, j.o.Solver = "sat", "z3-new(qf)"
+						}
+						continue
+					}
+				}
 				if w != nil {
 					txt := g.queryText(j.o, true)
 					t0 := time.Now()
